@@ -21,6 +21,9 @@ TRUSTED = [
 TRUSTED.append('lock contention is produced in one thread: the lock holder is a second connection (Cache handle or plain sqlite3) of the same '
                'process; SQLite decides BEGIN IMMEDIATE per connection, so the contended handle (timeout=0) sees SQLITE_BUSY exactly as it would '
                'from another thread or process')
+TRUSTED.append('threads sharing one Cache object (shared_block_races) are driven by the deterministic scheduler of harness/sched.py: one traced SQL statement / '
+               'file operation at a time, with a further switch point right after BEGIN / COMMIT / ROLLBACK; switches inside a statement or between two '
+               'bytecodes that touch no database or file are not explored')
 ASSUMPTIONS = ['the file clause is proved for the counters only (C08_counters); files-vs-rows agreement is decided by the monitor and by the row/file correspondence of every history',
                'concurrent clause: see C05']
 
@@ -700,6 +703,116 @@ def removal_races(ctx, res, stats, thorough):
     stats['removal_race_runs'] = runs
 
 
+def shared_block_cases():
+    """(label, program of thread A, program of thread B, setup): A opens a transact block on the object both threads use, writes
+    inside it and commits or aborts (by an exception the program catches); B removes or replaces file-backed values."""
+    big1, big2, big3 = 'OLD' + 'o' * 30, 'NEW' + 'n' * 30, 'BLK' + 'b' * 30
+    setup = [{'op': 'set', 'key': 'anchor', 'value': big1}, {'op': 'set', 'key': 'k', 'value': big1}, {'op': 'push', 'value': big1},
+             {'op': 'push', 'value': big2}]
+    bodies = {'inline': [{'op': 'set', 'key': 'other', 'value': 1}],
+              'file': [{'op': 'set', 'key': 'other', 'value': big3}, {'op': 'pop', 'key': 'anchor'}]}
+    others = {'pop': [{'op': 'pop', 'key': 'k', 'retry': True}],
+              'pull': [{'op': 'pull', 'retry': True}],
+              'pull-back': [{'op': 'pull', 'side': 'back', 'retry': True}],
+              'delete': [{'op': 'delete', 'key': 'k', 'retry': True}],
+              'set-replace': [{'op': 'set', 'key': 'k', 'value': big2, 'retry': True}],
+              'pop+set': [{'op': 'pop', 'key': 'k', 'retry': True}, {'op': 'set', 'key': 'm', 'value': big2, 'retry': True}]}
+    out = []
+    for bname, body in sorted(bodies.items()):
+        for end in ('commit', 'abort'):
+            a = [{'op': 'begin_block'}] + body + ([{'op': 'raise_in_block'}] if end == 'abort' else []) + [{'op': 'end_block'}]
+            for oname, b in sorted(others.items()):
+                out.append(('%s-block:%s || %s' % (bname, end, oname), a, b, setup))
+    return out
+
+
+def shared_block_race_run(ctx, programs, setup, schedule, settings):
+    """One schedule of two threads SHARING one Cache object.  Returns (problems, run_program result)."""
+    import concdrv
+    r = concdrv.run_program(ctx, programs, schedule, mode='shared', settings=settings, setup=setup, max_steps=6000, sleep_advances=False)
+    problems = [('shared_object_race_error', 'client error %r' % e) for e in r['errors'] if e is not None]
+    if r['overflow']:
+        problems.append(('shared_object_race_error', 'the run did not terminate'))
+    for recs in r['calls']:
+        for rec in recs:
+            if rec.get('exc') and rec['exc'] not in ('KeyError',):
+                problems.append(('shared_object_race_error', 'thread %d: %s raised %s' % (rec['client'], rec['op'], rec['exc'])))
+    if not problems:
+        bad, _ = consistency(r['dir'])
+        problems += [('shared_object_race:' + sig, text) for sig, text in bad]
+        if not bad:
+            with instr.Installed(r['clock']):
+                c = diskcache.Cache(r['dir'])
+                try:
+                    libw = lib_check(c)
+                finally:
+                    c.close()
+            if libw:
+                problems.append(('shared_object_race:check_warns', 'check() reports %s' % [w.replace(r['dir'], '<dir>') for w in libw[:2]]))
+    return problems, r
+
+
+def shared_block_races(ctx, res, stats, thorough):
+    """Two THREADS sharing ONE Cache object: thread A is inside a transact block (committing, or aborted by an exception) while
+    thread B pops / pulls / deletes / replaces file-backed values through the same object.  Schedules: B runs its first j events,
+    A its first i events, B runs to its end (or spins on the lock), A finishes, B finishes -- for every i, j -- and the mirror image
+    (A first).  Once both threads have finished, counters, rows and value files must agree and check() must be silent."""
+    import shutil
+    import concdrv
+    settings = {'disk_min_file_size': 8}
+    runs = 0
+    seen = set()
+    quick_cases = ('file-block:abort || ', 'file-block:commit || ', 'inline-block:abort || pop', 'inline-block:abort || pull')
+    for ci, (label, a, b, setup) in enumerate(shared_block_cases()):
+        if not thorough and (not label.startswith(quick_cases) or label.endswith(('pull-back', 'pop+set'))):
+            continue
+        programs = [a, b]
+        seqs = concdrv.solo_events(ctx, programs, settings=settings, setup=setup, mode='shared')
+        na, nb = len(seqs[0]), len(seqs[1])
+        # switch points of B: not inside a run of events that only touch a file nobody else can name yet (concdrv.units_of)
+        cuts, pos = [0], 0
+        for u in concdrv.units_of(seqs[1]):
+            pos += u
+            cuts.append(pos)
+        # quick: every 4th position of A, the residue rotating with the case and the seed (thorough: every position)
+        step_i = 1 if thorough else 4
+        off = 0 if thorough else (ci + ctx.seed) % step_i
+        scheds = []
+        for j in cuts:
+            for i in range(off if (j or off) else step_i, na + 1, step_i):
+                scheds.append([1] * j + [0] * i + [1] * 400 + [0] * 400)
+        for i in range(1 + off, na + 1, 1 if thorough else 6):
+            for j in cuts[1::1 if thorough else 3]:
+                scheds.append([0] * i + [1] * j + [0] * 400 + [1] * 400)
+        for schedule in scheds:
+            problems, r = shared_block_race_run(ctx, programs, setup, schedule, settings)
+            runs += 1
+            res.count(['shared-block-race', label, r['schedule_used']], nontrivial=True)
+            shutil.rmtree(r['dir'], ignore_errors=True)
+            for sig, text in problems[:2]:
+                if sig not in seen:
+                    seen.add(sig)
+                    res.violations.append(fw.Violation(sig, '%s [two threads sharing one Cache object; thread 0: %s; thread 1: %s; schedule %s]' % (
+                        text, ' '.join(c['op'] for c in a), ' + '.join(c['op'] for c in b), _rle(r['schedule_used'])),
+                        {'check': 'shared_block_race', 'label': label, 'programs': programs, 'setup': setup, 'schedule': r['schedule_used'],
+                         'settings': settings}))
+            if len(seen) >= 3:
+                break
+        if len(seen) >= 3:
+            break
+    stats['shared_block_race_runs'] = runs
+
+
+def _rle(schedule):
+    out = []
+    for c in schedule:
+        if out and out[-1][0] == c:
+            out[-1][1] += 1
+        else:
+            out.append([c, 1])
+    return ' '.join('%dx%d' % (c, n) for c, n in out)
+
+
 def run(ctx, big=False):
     res = fw.Result()
     res.rule = ('full-API histories (replace, add-on-present, incr, bulk removal, eviction at a reachable size limit, queue operations) with the '
@@ -710,6 +823,8 @@ def run(ctx, big=False):
                 'Deque / Index methods (the call waits; the lock is released before its k-th BEGIN attempt) while a second Cache handle inside '
                 'transact() or a plain sqlite3 connection after BEGIN IMMEDIATE holds the write lock (any subset of FanoutCache shards), decided '
                 'after the lock is released; text values of 1- to 4-byte code points kept in files (recorded size = encoded size); '
+                'two THREADS sharing one Cache object, one inside a transact block that commits or aborts, the other popping / pulling / deleting / '
+                'replacing file-backed values, every two-switch placement under the deterministic scheduler, decided when both have finished; '
                 'row/file model compared after every call.  '
                 'non-trivial = at least one value file exists in the observed state / the fault fired.')
     stats = {'states': 0, 'file_rows': 0, 'fault_runs': 0, 'faults_fired': 0, 'unencodable': 0}
@@ -721,11 +836,13 @@ def run(ctx, big=False):
     lock_contention(ctx, res, stats, 48 if not thorough else 600)
     text_values(ctx, res, stats)
     removal_races(ctx, res, stats, thorough)
+    shared_block_races(ctx, res, stats, not ctx.quick)       # (search mode keeps the quick family: it is systematic already)
     if not ctx.search_mode:
         correspondence(ctx, res, terms, recs)
     res.extra.update({'states_checked': stats['states'], 'file_backed_rows_seen': stats['file_rows'],
                       'fault_histories': stats['fault_runs'], 'faults_that_fired': stats['faults_fired'],
                       'open_race_schedules': stats.get('open_race_runs', 0), 'removal_race_schedules': stats.get('removal_race_runs', 0),
+                      'shared_object_block_race_schedules': stats.get('shared_block_race_runs', 0),
                       'lock_contention_cases': stats.get('contention_cases', 0), 'calls_that_gave_up_on_the_lock': stats.get('contention_timeouts', 0),
                       'calls_that_waited_for_the_lock': stats.get('contention_waits', 0)})
     witnesses(res)
@@ -743,6 +860,16 @@ def replay(payload):
         try:
             problems, info = run_contention_case(case, ctx.scratch('c08l'))
             print('contention:', problems, info)
+            return not problems
+        finally:
+            ctx.cleanup()
+    if case.get('check') == 'shared_block_race':
+        ctx = fw.Ctx('C08', 'quick', 1)
+        try:
+            problems, r = shared_block_race_run(ctx, case['programs'], case['setup'], case['schedule'], case['settings'])
+            print('log:', ' '.join('%d:%s' % (c, w) for c, w, _ in r['log']))
+            print('results:', [[rec['client'], rec['op'], rec.get('result', rec.get('exc'))] for recs in r['calls'] for rec in recs])
+            print('monitor:', problems)
             return not problems
         finally:
             ctx.cleanup()
